@@ -312,6 +312,20 @@ func digestTasks(thorough bool) []task {
 			a.n("short_strings", 1)
 		}
 	})
+	// every single byte value at every position of a 64-character body (the
+	// character-class list below cannot anticipate which bytes a hand-written
+	// hex test confuses with digits or letters)
+	ts = append(ts, func(a *acc) {
+		base := bodiesOfLen(64)
+		for p := 0; p < 64; p++ {
+			for c := 0; c < 256; c++ {
+				b := base[:p] + string([]byte{byte(c)}) + base[p+1:]
+				candidateDigest(a, "sha256:"+b, false)
+				candidateHexBody(a, b)
+				a.n("all_bytes_at_every_position", 1)
+			}
+		}
+	})
 	// prefix x body x suffix
 	lens := []int{64}
 	for _, l := range []int{63, 65, 0, 1, 62, 66, 128} {
@@ -1165,7 +1179,7 @@ func main() {
 	tasks = append(tasks, torrentMetaTasks()...)
 	tasks = append(tasks, handshakeTasks(thorough)...)
 
-	run.Rule = "values: every listed value of each type is printed/serialized and parsed back by the real functions (digest: 64 positions x 22 hex characters + fixed bodies, via String/Parse, Hex ctor, JSON, SQL; digest lists: all lists up to length 3/5 over 3 digests + nil; info hash / peer id: every single-byte value at every position + SHA-1 values; piece status: every {empty,complete} vector up to length 9/14; access times: special seconds x 4 sub-second values x 4 zones + dense sweeps of +-1500/10000 s around each varint length boundary (both signs) and a present-day time; persist: both; torrent meta: lengths 0..9 x piece lengths 1..4; handshake: bitfield sizes 0..130/200 x (n+6) patterns x 2 constructions, all patterns up to size 10/14, 5 remote-bitfield maps x 5 namespaces on boundary sizes, through toP2PMessage + real framing + handshakeFromP2PMessage). malformed: prefix x body x suffix products with every position of 62..66-character bodies replaced by each of 18 character classes, all strings up to length 2/3 over {s,h,a,2,:,g,G,space}, wrong lengths / one non-hex character for ids, incomplete varints, non-boolean strings, every strict truncation of serialized bitfields; parsers must accept iff an independently written recogniser does. A case is distinct per (type, value or input string); strings of length <= 3 are counted as trivial and not distinct."
+	run.Rule = "values: every listed value of each type is printed/serialized and parsed back by the real functions (digest: 64 positions x 22 hex characters + fixed bodies, via String/Parse, Hex ctor, JSON, SQL; digest lists: all lists up to length 3/5 over 3 digests + nil; info hash / peer id: every single-byte value at every position + SHA-1 values; piece status: every {empty,complete} vector up to length 9/14; access times: special seconds x 4 sub-second values x 4 zones + dense sweeps of +-1500/10000 s around each varint length boundary (both signs) and a present-day time; persist: both; torrent meta: lengths 0..9 x piece lengths 1..4; handshake: bitfield sizes 0..130/200 x (n+6) patterns x 2 constructions, all patterns up to size 10/14, 5 remote-bitfield maps x 5 namespaces on boundary sizes, through toP2PMessage + real framing + handshakeFromP2PMessage). malformed: prefix x body x suffix products with every position of 62..66-character bodies replaced by each of 18 character classes, every byte value 0..255 at every position of a 64-character body, all strings up to length 2/3 over {s,h,a,2,:,g,G,space}, wrong lengths / one non-hex character for ids, incomplete varints, non-boolean strings, every strict truncation of serialized bitfields; parsers must accept iff an independently written recogniser does. A case is distinct per (type, value or input string); strings of length <= 3 are counted as trivial and not distinct."
 	run.Assume("small-scope: parsers distinguish inputs only by length, prefix and per-character class; one representative per class at every position, and single-byte variation of 20-byte identifiers, expose their defects")
 	run.Assume("access times are within [year 1, year 9999] (the range time.Time itself can format); compared at second granularity as the statement says")
 	run.Assume("piece-status vectors range over {empty, complete}: a dirty status is never written to the sidecar (WriteMetadataAt writes only 'complete'); the lenient mapping of unknown status bytes to 'empty' is not judged")
